@@ -28,6 +28,14 @@ Theorem C09_no_overwrite : forall A render sv p m xs f0 c0 lk,
   save A render sv p m xs (init_st f0 c0 lk) = (Err EExists, init_st f0 c0 lk).
 Proof. exact no_overwrite. Qed.
 
+(* after a successful save (one file or marked directory) a second save to the same path -- any data, plan, saver --
+   is refused and changes nothing.  Paths are opaque in the model: the NAME of the target plays no role. *)
+Theorem C09_second_save_refused : forall A render sv p m xs c0 s1,
+  save A render sv p m xs (init_st FAbsent c0 false) = (Ok tt, s1) ->
+  forall (B : Type) (render2 : B -> bytes) sv2 p2 m2 (ys : list B) c1 lk,
+  save B render2 sv2 p2 m2 ys (init_st (s_fs s1) c1 lk) = (Err EExists, init_st (s_fs s1) c1 lk).
+Proof. exact second_save_refused. Qed.
+
 (* ---- clause 2: the marker is written only after every partition file ----
    Invariant over every prefix of the effect sequence: in every state the target goes through and in the final
    one, if _SUCCESS is there then the directory is exactly the complete one (and the save is multi-partition). *)
